@@ -23,6 +23,9 @@
 (*   CounterFirst FALSE: the counter is incremented after the put                           *)
 (*   FreshPipe    FALSE: restart() keeps the old results channel                            *)
 (*   ResetClosed  FALSE: restart() carries _closed over to the new incarnation              *)
+(*   BlockAfterClose FALSE: next_result() reads without blocking as soon as _closed is set  *)
+(*                (not only when the worker is dead): a blocking read issued after close()  *)
+(*                while the child still owes results reports the end of the stream early    *)
 (* AllowBlock = TRUE (only to compute which call sequences can hang under some            *)
 (* interleaving): a blocking next_result may also be issued when nothing will ever come;    *)
 (* the history then ends with the outcome "hang".                                           *)
@@ -31,7 +34,7 @@
 EXTENDS Naturals, Sequences, FiniteSets, TLC, PersistentProps
 
 CONSTANTS Kinds, DTypes, DArgsSet, DKwSet, Shapes, Ops, MaxSteps, MaxEnq, MaxRestarts,
-          Settle, Hist, AllowBlock, TupleFix, CounterFirst, FreshPipe, ResetClosed
+          Settle, Hist, AllowBlock, TupleFix, CounterFirst, FreshPipe, ResetClosed, BlockAfterClose
 
 VARIABLES kind, dtype, dargs, dkw,               \* scenario
           ppc, pend, closed, pdead, late,        \* parent: pc, call in progress, _closed, _dead, "after close/death"
@@ -62,7 +65,7 @@ Target(a, kw) == IF IsSpecial(a) THEN [t |-> SpecTag(a[1]), a |-> <<>>, kw |-> <
 KwSeq(d, x) == SelectSeq(d, LAMBDA p : p[1] \notin Keys(x)) \o x
 
 NoPend == [op |-> "none", k |-> 0, nread |-> 0, late |-> "F", pre |-> <<"F", "idle", 0>>]
-FreshInc(id) == [enq |-> <<>>, raw |-> <<>>, late |-> <<>>, calls |-> <<>>, first |-> "none", alive0 |-> "T",
+FreshInc(id) == [enq |-> <<>>, raw |-> <<>>, late |-> <<>>, calls |-> <<>>, bempty |-> <<>>, first |-> "none", alive0 |-> "T",
                  waited |-> "none", result |-> [k |-> "na", n |-> 0], fault |-> "none", id |-> id,
                  name |-> "nm", userid |-> "u", endk |-> "final", oldos |-> "na", rraised |-> <<>>]
 
@@ -143,14 +146,28 @@ ApiNextBHang == /\ AllowBlock /\ "nextb" \in Ops /\ CanCall /\ ~Produces
                 /\ cpc \in {"recv", "exiting", "stuck"} /\ (cpc = "recv" => argsQ = <<>>)
                 /\ ppc' = "hung" /\ Log("nextb", "hang")
                 /\ UNCHANGED <<scnv, pend, closed, pdead, late, childv, argsQ, resQ, I, done, nenq, nrst>>
-ApiNextB == /\ "nextb" \in Ops /\ CanCall /\ Produces
+\* the wrong variant: a closed (not necessarily dead) worker is read without blocking
+ApiNextBClosed == /\ ~BlockAfterClose /\ "nextb" \in Ops /\ CanCall /\ closed
+                  /\ IF resQ = <<>>
+                     THEN /\ Log("nextb", "Empty") /\ UNCHANGED resQ
+                          /\ I' = [I EXCEPT !.bempty = Append(@, [nread |-> NRead, nenq |-> Len(I.enq)])]
+                     ELSE /\ Log("nextb", PopOut)
+                          /\ resQ' = Tail(resQ)
+                          /\ I' = [I EXCEPT !.raw = Append(@, Head(resQ)),
+                                            !.bempty = (IF Head(resQ).f = "F" THEN Append(@, [nread |-> NRead, nenq |-> Len(I.enq)]) ELSE @)]
+                  /\ SeeDeath
+                  /\ UNCHANGED <<scnv, ppc, pend, closed, late, childv, argsQ, done, nenq, nrst>>
+ApiNextB == /\ "nextb" \in Ops /\ CanCall /\ Produces /\ (BlockAfterClose \/ ~closed)
             /\ ppc' = "next" /\ SeeDeath /\ pend' = [pend EXCEPT !.pre = Pre]
             /\ UNCHANGED <<scnv, closed, late, childv, argsQ, resQ, I, done, steps, nenq, nrst, h>>
 NextEnd == /\ ppc = "next" /\ (resQ # <<>> \/ cpc = "dead")
            /\ IF resQ = <<>>
-              THEN /\ LogP("nextb", "Empty", pend.pre) /\ UNCHANGED <<resQ, I>>
+              THEN /\ LogP("nextb", "Empty", pend.pre) /\ UNCHANGED resQ
+                   /\ I' = [I EXCEPT !.bempty = Append(@, [nread |-> NRead, nenq |-> Len(I.enq)])]
               ELSE /\ LogP("nextb", PopOut, pend.pre)
-                   /\ resQ' = Tail(resQ) /\ I' = [I EXCEPT !.raw = Append(@, Head(resQ))]
+                   /\ resQ' = Tail(resQ)
+                   /\ I' = [I EXCEPT !.raw = Append(@, Head(resQ)),
+                                     !.bempty = (IF Head(resQ).f = "F" THEN Append(@, [nread |-> NRead, nenq |-> Len(I.enq)]) ELSE @)]
            /\ ppc' = "ready"
            /\ UNCHANGED <<scnv, pend, closed, pdead, late, childv, argsQ, done, nenq, nrst>>
 
@@ -301,7 +318,7 @@ CExit == /\ cpc = "exiting" /\ cpc' = "dead"
          /\ UNCHANGED <<scnv, parentv, cur, val, counter, cres, apend, argsQ, resQ>>
 Child == CRecv \/ CRun \/ CSend \/ CCleanup \/ CExit
 
-Parent == \/ ApiEnq \/ ApiEnqRaise \/ ApiEnqStuck \/ ApiClose \/ ApiAlive \/ ApiNextNB \/ ApiNextB \/ ApiNextBHang \/ NextEnd
+Parent == \/ ApiEnq \/ ApiEnqRaise \/ ApiEnqStuck \/ ApiClose \/ ApiAlive \/ ApiNextNB \/ ApiNextB \/ ApiNextBClosed \/ ApiNextBHang \/ NextEnd
           \/ ApiCall \/ CallEnd \/ ApiWait \/ WaitEnd \/ ApiWaitT \/ ApiTerm \/ TermEnd \/ ApiKill \/ ApiRelease
           \/ ApiRestart("restart") \/ ApiRestart("restartP") \/ RstEnd
           \/ ApiRestartT("restartT") \/ ApiRestartT("restartTnf")
@@ -322,6 +339,7 @@ Inv_C05_Stream == C05_Stream(Rec)
 Inv_C05_Count  == Terminal => C05_Count(Rec)
 Inv_C05_Closed == C05_Closed(Rec)
 Inv_C05_Call   == C05_Call(Rec)
+Inv_C05_End    == C05_End(Rec)
 Inv_C17_Live          == C17_Live(Rec)
 Inv_C17_Equivalent    == C17_Equivalent(Rec)
 Inv_C17_NewIdentity   == C17_NewIdentity(Rec)
@@ -335,6 +353,7 @@ Live_Returns == [](ppc \in {"next", "call", "wait", "term", "rst", "fin"} => <>(
 W_NoFullStream == ~(Terminal /\ Len(I.enq) >= 2 /\ Len(Valid(I.raw)) = Len(I.enq) /\ I.waited = "T")
 W_NoLate       == ~(Len(I.late) > 0)
 W_NoCleanCall  == ~(\E j \in 1..Len(I.calls) : I.calls[j].out = "val")
+W_NoBlockingReadAfterClose == ~(ppc = "next" /\ closed /\ resQ = <<>> /\ cpc \in {"run", "send"})
 W_NoLongerArgs == ~(\E k \in 1..Len(I.enq) : Len(I.enq[k].a) > Len(dargs) /\ Len(dargs) > 0 /\ Len(Valid(I.raw)) >= k)
 W_NoRestartUnread == ~(Len(done) > 0 /\ Len(done[1].enq) > Len(Valid(done[1].raw)) /\ Len(Valid(I.raw)) > 0)
 W_NoRestartRaised == ~(Len(I.rraised) > 0)
